@@ -3,7 +3,7 @@
    for EVERY recovery function and every hash function.  The chain fetch is an oracle too ([chain from to]). *)
 From Coq Require Import List ZArith Lia Bool Arith.
 From Coq Require Import Strings.Byte.
-From WH Require Import lib.Bytes gen.Extracted model.Vaa model.Explorer proofs.VaaProofs proofs.QuorumProofs proofs.ExplorerProofs.
+From WH Require Import lib.Bytes gen.Extracted model.Vaa model.Explorer proofs.VaaProofs proofs.QuorumProofs proofs.ExplorerProofs model.ExplorerRange proofs.ExplorerRangeProofs.
 From WH Require model.Processor model.ProcSpec model.System model.Spy model.Contracts proofs.DbProofs proofs.SystemProofs.
 Import ListNotations.
 Open Scope Z_scope.
@@ -216,6 +216,34 @@ Proof.
   repeat apply conj; vm_compute; reflexivity.
 Qed.
 
+(* ---- what the store can learn through GetGuardianSet: only sets the contract HAS.  range_of explorer_range_capped is getGuardianSetsRange with the
+   cap of the requested range at the contract's current index as the TREE has it (gen/Extracted.v explorer_range_capped, read from gst_data.go on every run;
+   Getters.sol getGuardianSet is a plain mapping read: an index the contract does not have yet is answered with the empty set, not with an error).  A lookup of
+   such an index — any gossiped VAA naming it triggers one, before its signatures are looked at — must not leave that empty answer in the store: "the guardian
+   set it returns for index i is always the set with index i", also once the chain has appointed set i. *)
+Theorem C19_store_learns_only_sets_the_chain_has : forall c ci s i s' r sent, labels c -> c_cur c = Some ci ->
+  Forall (chain_has c ci) (lists s) -> get (range_of explorer_range_capped c) s i = (s', r, sent) -> Forall (chain_has c ci) (lists s').
+Proof. exact get_learns_only_chain_sets. Qed.
+
+Theorem C19_future_index_refused_and_nothing_stored : forall c ci s i, aligned s -> c_cur c = Some ci -> cur s = ci -> 0 <= ci -> ci < i < 2 ^ 32 ->
+  exists g, get (range_of explorer_range_capped c) s i = (s, GErrIndex, [g_index g]) /\ nth_set s i = None.
+Proof. exact future_index_refused. Qed.
+
+(* the history of the defect repaired by the fix recorded in known_findings.json, on the model: without the cap the empty answer stays for good ... *)
+Theorem C19_uncapped_range_keeps_the_empty_answer_refuted :
+  let '(s1, r1, _) := get (range_of false (contract_of rx_hist0)) rx_store 1 in
+  let '(_, r2, _) := get (range_of false (contract_of rx_hist1)) s1 1 in
+  r1 = GOk {| g_index := 1; g_keys := Some [] |} /\ r2 = GOk {| g_index := 1; g_keys := Some [] |} /\
+  c_set (contract_of rx_hist1) 1 = Some {| g_index := 1; g_keys := Some [rx_k x02; rx_k x03] |}.
+Proof. exact uncapped_keeps_the_empty_answer. Qed.
+
+(* ... with it (the generated flag) the same history ends with the contract's set: non-vacuity of the two theorems above *)
+Example C19_capped_range_learns_the_real_set :
+  let '(s1, r1, _) := get (range_of explorer_range_capped (contract_of rx_hist0)) rx_store 1 in
+  let '(_, r2, _) := get (range_of explorer_range_capped (contract_of rx_hist1)) s1 1 in
+  r1 = GErrIndex /\ s1 = rx_store /\ r2 = GOk {| g_index := 1; g_keys := Some [rx_k x02; rx_k x03] |}.
+Proof. exact capped_learns_the_real_set. Qed.
+
 Print Assumptions C19_push_gate.
 Print Assumptions C19_push_gate_named_set.
 Print Assumptions C19_queue_only_through_gate.
@@ -233,3 +261,6 @@ Print Assumptions C19_published_vaa_passes_the_explorer_gate.
 Print Assumptions C19_published_vaa_is_wire_representable.
 Print Assumptions C19_published_vaa_is_parsed_and_counted_by_both_contracts.
 Print Assumptions C19_published_vaa_reaches_exactly_the_matching_spy_subscribers.
+Print Assumptions C19_store_learns_only_sets_the_chain_has.
+Print Assumptions C19_future_index_refused_and_nothing_stored.
+Print Assumptions C19_uncapped_range_keeps_the_empty_answer_refuted.
